@@ -62,7 +62,7 @@ BOUNDS = {
              "(6 tuples x 7 options/model), 39 rank configurations each; 4 strictness expressions x 7 status options on "
              "base+2; bic mixed/fixed on base+1; create_results (best model, summary) on base+2 x 4 options; "
              "strictness: all expressions with <=2 atoms over {<,>=} (1 atom: all 6 operators) x all profiles of the "
-             "fields read; criteria on 15 models, lrt functions on 12x11 model pairs x 8^2 ofvs x 3 alphas; statistics: "
+             "fields read; criteria on 17 models, lrt functions on 12x11 model pairs x 8^2 ofvs x 3 alphas; statistics: "
              "bootstrap 3 rows (all 816 multisets) + 1/8 of 4 rows + 12 tables of 7-50 rows, cdd 3 cases, eta tables "
              "2-3 individuals, 810 delta-method cases",
     "thorough": "rank: base+3 (16 tuples x 7 options/model), base+4 (3 tuples x 7 options), base+5 (4 tuples x 4 "
@@ -92,6 +92,8 @@ CORPUS_KEYS = [
     ("sub12",),              # 12 base on 12 individuals
     ("sub12", "periph"),     # 13
     ("sub12", "rmiivcl"),    # 14
+    ("periph", "shareq"),    # 15 +2, POP_CL also in QP1 (no eta): still one random-effects parameter
+    ("periph", "iivq", "shareq"),  # 16 +3, POP_CL in two individual parameters with eta: counted once
 ]
 _CORPUS = None
 
@@ -115,6 +117,14 @@ def _apply_real(model, edit):
         return pm.fix_parameters_to(model, {"IIV_CL": 0})
     if edit == "fixomv":
         return pm.fix_parameters(model, ["IIV_VC"])
+    if edit == "shareq":
+        from pharmpy.basic import Expr
+        from pharmpy.model import Assignment
+
+        st = model.statements
+        i = st.find_assignment_index("QP1")
+        new = Assignment.create(st[i].symbol, st[i].expression * Expr.symbol("POP_CL"))
+        return model.replace(statements=st[:i] + new + st[i + 1:])
     if edit == "sub12":
         df = model.dataset
         return model.replace(dataset=df[df["ID"] <= 12].reset_index(drop=True))
